@@ -125,7 +125,8 @@ def random_action(rnd, names, allow_copy):
     if r < 0.46: return A("Assign", n, v=rnd.choice([{"cls": "sc", "d": [6]}, {"cls": "mat", "d": [3, 4]}]))
     if r < 0.52: return A("AssignFromVar", n, m)
     if r < 0.64: return A("IndexAssign", n, i=rnd.choice([1, 2, 3]))
-    if r < 0.74: return A("OpAssign", n)
+    if r < 0.70: return A("OpAssign", n)
+    if r < 0.74: return A("OpAssignVar", n, rnd.choice(names), i=rnd.choice([1, 2]))
     if r < 0.80: return A("FieldAssign", n)
     if r < 0.86: return A("TupleElemAssign", n)
     if r < 0.91: return A("Destructure", n, m)
@@ -145,7 +146,8 @@ def abstract_value(p):
         if v[0] == 'rec' and [f[0] for f in v[1]] == ['x', 'y']: return {"cls": "rec", "d": [n(v[1][0][2]), n(v[1][1][2])]}
         if v[0] == 'tup' and len(v[1]) == 2: return {"cls": "tup", "d": [n(v[1][0]), n(v[1][1])]}
         if v[0] == 'set' and sorted(n(e) for e in v[3]) == [1, 2]: return {"cls": "set", "d": [1, 2]}
-        if v[0] == 'tbl' and v[1] == 1 and [c[0] for c in v[2]] == ['x', 'y']: return {"cls": "tbl", "d": [n(v[2][0][2][0]), n(v[2][1][2][0])]}
+        if v[0] == 'tbl' and [c[0] for c in v[2]] == ['x', 'y']:
+            return {"cls": "tbl", "d": [n(v[2][j][2][k]) for k in range(v[1]) for j in (0, 1)]}
     except (ValueError, IndexError, TypeError):
         pass
     return {"cls": "other", "d": []}
@@ -206,6 +208,18 @@ def run(rep, tier, seed):
                     "walks_replayed": nreq, "statements_executed": nst, "transitions_validated": validated,
                     "transitions_masked_by_divergence": masked, "exhaustive": True,
                     "rule": "complete (store, mutable-set) graph of MechSession over 2 names and 6 value classes; every transition is the last step of a replayed walk (path to its source state + the self-loop edges of that state + one moving edge); the whole store and mutable set are compared after every statement"})
+    # ---- op-assignment with a VARIABLE source (+= -= *=; scalar, matrix, broadcast, table row append): its own complete graph
+    to = tlc.run("MC_C05", "MC_C05_op.cfg", workers=16, timeout=3000, collect=("EDGE",), tag="MC_C05_op")
+    if to.violations or not to.ok:
+        rep.fail("C05/model", "TLC reported a violation on the MechSession model (op-assign alphabet): " + "; ".join(to.errors[:3]), {"log": to.log})
+    go = S.Graph(to.cases)
+    walks_o = build_walks(go, init)
+    if tier == "quick" and len(walks_o) > 6000:
+        walks_o = random.Random(seed).sample(walks_o, 6000)
+    no, vo, mo, so = replay_walks(rep, go, walks_o, names, "2-name op-assign alphabet")
+    log(f"[C05] op-assign alphabet: {to.distinct} states, {len(to.cases)} transitions; replayed {no} walks / {so} statements; {vo} transitions validated, {mo} masked")
+    rep.cov.update({"op_states": to.distinct, "op_transitions": len(to.cases), "op_walks_replayed": no, "op_transitions_validated": vo})
+    nreq += no
     # ---- thorough: 3-name behaviours sampled by TLC simulation, replayed the same way
     if tier != "quick":
         ts = tlc.run("MC_C05", "MC_C05_sim.cfg", workers=1, simulate=6000, depth=16, timeout=3000, collect=("EDGE",),
